@@ -145,7 +145,9 @@ def eval_case(case):
     if case.get('rate_refuse'):
         # the server disappears for the rate check: registered under a flag the fake consults at connect time
         peer.rate = 'normal'
-    net.add('h', 22, peer)
+    # the name may have several address records, each of them answering: the bounds are on what the audit opens in total
+    ips = [(2, '10.0.0.1'), (2, '10.0.0.2'), (10, '2001:db8::1'), (2, '10.0.0.3')][:case.get('addresses', 1)]
+    net.add('h', 22, peer, ips=ips)
     argv = ['-n'] + case.get('argv', []) + (['--skip-rate-test'] if skip else []) + ['h']
     with Counters() as cnt:
         r = drive.run_cli(argv, net)
@@ -156,7 +158,7 @@ def eval_case(case):
     bound = 1 + nkeys + 9 * ngex + rate_allow
     nb = [c for c in net.connects if c[4]]
     blocking = [c for c in net.connects if not c[4]]
-    cl = ['rate:' + ('skipped' if skip else spec.get('rate', 'normal')), 'conns:%d' % min(len(net.connects), 60) if len(net.connects) < 10 else 'conns:10+', 'gex:%d' % ngex, 'keys:%d' % nkeys] + (['policy'] if '-P' in argv else [])
+    cl = ['address-records:%d' % case.get('addresses', 1), 'rate:' + ('skipped' if skip else spec.get('rate', 'normal')), 'conns:%d' % min(len(net.connects), 60) if len(net.connects) < 10 else 'conns:10+', 'gex:%d' % ngex, 'keys:%d' % nkeys] + (['policy'] if '-P' in argv else [])
     nt = len(net.connects) >= 3 or bool(spec.get('faults'))
     if r.hang:
         fails.append(['hang', r.brief()])
@@ -214,7 +216,9 @@ HOSTKEYS = {'ssh-ed25519': {'t': 'ed25519'}, 'ssh-rsa': {'t': 'rsa', 'bits': 204
             'ecdsa-sha2-nistp256': {'t': 'ecdsa', 'curve': 'nistp256'}, 'ssh-dss': {'t': 'dss'},
             'ssh-ed25519-cert-v01@openssh.com': {'t': 'cert', 'kind': 'ssh-ed25519-cert-v01@openssh.com', 'ca': {'t': 'ed25519'}},
             'ssh-rsa-cert-v01@openssh.com': {'t': 'cert', 'kind': 'ssh-rsa-cert-v01@openssh.com', 'bits': 3072, 'ca': {'t': 'rsa', 'bits': 4096}}}
-FAULTS = ['close', 'stall', 'reset', ['trunc', 7, 'close'], ['trunc', 7, 'stall'], ['type', 99], ['reframe_trunc', 3], ['set_len', 0x1234], ['dup'], ['debug', 3], ['payload', '\x1f\x00\x00\x00\x00']]
+FAULTS = ['close', 'stall', 'reset', ['trunc', 7, 'close'], ['trunc', 7, 'stall'], ['type', 99], ['reframe_trunc', 3], ['set_len', 0x1234], ['dup'], ['debug', 3], ['payload', '\x1f\x00\x00\x00\x00'],
+          # a polite refusal: SSH_MSG_DISCONNECT with a reason (too many connections, by application, protocol error, ...), other transport messages
+          ['disconnect', 12], ['disconnect', 11], ['disconnect', 2], ['disconnect', 7], ['disconnect', 1], ['disconnect', 0xffffffff], ['type', 2], ['type', 3], ['type', 7], ['type', 21]]
 WHATS = ['connect', 'banner', 'kexinit', 'kexdh_reply', 'gex_group', 'gex_reply']
 RATES = ['normal', 'normal', 'close', 'stall', 'reset', 'refuse', 'greet:Exceeded MaxStartups\r\n', 'greet:HTTP/1.1 400 Bad Request\r\n\r\n', 'greet:SSH', 'greet:\x00\x00\x00\x00',
          # servers that answer only some of the rate-check connections (every k-th gets a banner)
@@ -227,16 +231,16 @@ def strat_case():
     kexes = ['curve25519-sha256', 'diffie-hellman-group14-sha256', 'diffie-hellman-group-exchange-sha256', 'diffie-hellman-group-exchange-sha1', 'ecdh-sha2-nistp256', 'sntrup761x25519-sha512@openssh.com', 'diffie-hellman-group1-sha1', 'foo@example.com']
 
     def build(t):
-        kex, keys, moduli_mask, style, rate, skip, nf, fw, ff, fi, policy, banner = t
+        kex, keys, moduli_mask, style, rate, skip, nf, fw, ff, fi, policy, banner, naddr = t
         sizes = [512, 768, 1024, 1536, 2048, 3072, 4096, 6144, 8192]
         spec = {'banner': banner, 'kex': list(kex) if moduli_mask % 3 == 0 else list(dict.fromkeys(kex)), 'key': list(keys) if moduli_mask % 5 == 0 else list(dict.fromkeys(keys)), 'hostkeys': {k: v for k, v in HOSTKEYS.items()},
                 'moduli': [s for i, s in enumerate(sizes) if moduli_mask >> i & 1], 'gex_style': style, 'rate': rate,
                 'faults': [[fw[i], fi[i], ff[i]] for i in range(nf)]}
         opts = [[], ['-j'], ['-b'], ['-v'], ['-jj', '-b'], ['-j', '-b', '-v'], ['-l', 'fail'], ['-4']][moduli_mask % 8]
-        return {'spec': spec, 'skip_rate': skip, 'argv': opts + (['-P', 'Hardened OpenSSH Server v9.9 (version 1)'] if policy else [])}
+        return {'spec': spec, 'skip_rate': skip, 'argv': opts + (['-P', 'Hardened OpenSSH Server v9.9 (version 1)'] if policy else []), 'addresses': naddr}
     return st.tuples(st.lists(st.sampled_from(kexes), min_size=1, max_size=5), st.lists(st.sampled_from(keytypes), min_size=1, max_size=8), st.integers(0, 511), st.sampled_from(['strict', 'roundup', 'openssh']),
                      st.sampled_from(RATES), st.sampled_from([False, False, True]), st.integers(0, 2), st.lists(st.sampled_from(WHATS), min_size=2, max_size=2), st.lists(st.sampled_from(FAULTS), min_size=2, max_size=2),
-                     st.lists(st.sampled_from([0, 1, 2, 3, 5, '*']), min_size=2, max_size=2), st.sampled_from([False, False, False, True]), st.sampled_from(['SSH-2.0-OpenSSH_8.9', 'SSH-2.0-dropbear_2022.83'])).map(build)
+                     st.lists(st.sampled_from([0, 1, 2, 3, 5, '*', '1+', '2+', '3+', '5+']), min_size=2, max_size=2), st.sampled_from([False, False, False, True]), st.sampled_from(['SSH-2.0-OpenSSH_8.9', 'SSH-2.0-dropbear_2022.83']), st.sampled_from([1, 1, 1, 2, 3, 4])).map(build)
 
 
 def valid_case(case):
